@@ -122,6 +122,27 @@ def work(unit):
                         if val != want:
                             cls = "wrong-file" if isinstance(val, int) else "lookup-raises"
                             fails.append((cls, cid, f"chain dirs={dirs} hop spellings={kinds} entry={ekind} cwd={'<R>/' + os.path.relpath(cwd, root) if cwd.startswith(root) else ('<mirror>' + cwd[len(mirror):] if cwd.startswith(mirror) else cwd)} chdir_after_parse={chdir_after}: got {val!r}, planted {want}", (kinds, ekind, chdir_after, length)))
+        # the same relative spelling parsed from two working directories in one process: the mirror tree
+        # holds the same relative layout with other planted values (state left by an earlier parse_file
+        # call must not anchor a later one)
+        for cid, (d, fname, length, want, kinds, dirs) in chain_items:
+            if "abs" in kinds:
+                continue  # absolute hop spellings of the mirror tree point into the mirror anyway; keep the relative chains
+            rel = os.path.join(d, fname) if d else fname
+            for base, expect in ((root, want), (mirror, want + 900), (root, want)):
+                os.chdir(base)
+                n += 1
+                try:
+                    cur = parse_file(rel)
+                    for _ in range(length):
+                        cur = cur["k"]
+                    got = cur["v"]
+                    val = getattr(got, "value", got)
+                except Exception as e:
+                    val = f"{type(e).__name__}: {str(e)[:80]}"
+                if val != expect:
+                    cls = "wrong-file" if isinstance(val, int) else "lookup-raises"
+                    fails.append((cls, cid, f"chain dirs={dirs} hop spellings={kinds}: relative entry {rel!r} parsed from {'<R>' if base == root else '<mirror>'} after the same spelling was parsed from the other tree: got {val!r}, planted {expect}", (kinds, "same-rel-two-cwds", False, length)))
     finally:
         os.chdir(home)
     return n, fails
@@ -194,7 +215,7 @@ def run(prop: str, tier: str) -> core.Report:
         cov = {
             "evaluations": n + en,
             "distinct_nontrivial": n,
-            "rule": f"{len(items)} import chains (1-3 hops over directories {DIRS}, hop spellings ./ ../ bare a/b detour absolute) x {len(cwds)} working directories x 4-6 entry-path spellings (absolute, relative, ./relative, detour, directory part ending in `..`) x chdir-between-parse-and-lookup; decoy leaf.nix in every directory and a mirror tree with other values under the unrelated working directory; + error shapes",
+            "rule": f"{len(items)} import chains (1-3 hops over directories {DIRS}, hop spellings ./ ../ bare a/b detour absolute) x {len(cwds)} working directories x 4-6 entry-path spellings (absolute, relative, ./relative, detour, directory part ending in `..`) x chdir-between-parse-and-lookup, plus every relative chain entered through the same relative spelling from the tree and from its mirror in one process; decoy leaf.nix in every directory and a mirror tree with other values under the unrelated working directory; + error shapes",
             "samples": [{"chain": c, "dirs": v[5], "hop_spellings": v[4], "planted": v[3]} for c, v in core.pick_samples(items, 4)],
             "exhaustive": True,
             "chains": len(items),
